@@ -279,55 +279,79 @@ namespace adept {
       }
 
       // Find which dimensions are in play
-      if (nbound > 0) {
-	// We release any dimensions from being at a minimum or
-	// maximum bound if two conditions are met: (1) the gradient
-	// in that dimension slopes away from the bound, and (2) the
-	// Levenberg-Marquardt formula to compute dx using the current
-	// value of "damping" leads to a point on the valid side of the
-	// bound
-	modified_hessian = hessian;
-	if (!use_additive_damping) {
-	  modified_hessian.diag_vector() *= (1.0 + damping);
+      intVector ifree;
+      bool release_on_gradient_alone = false;
+      while (true) {
+	if (nbound > 0 && !release_on_gradient_alone) {
+	  // We release any dimensions from being at a minimum or
+	  // maximum bound if two conditions are met: (1) the gradient
+	  // in that dimension slopes away from the bound, and (2) the
+	  // Levenberg-Marquardt formula to compute dx using the current
+	  // value of "damping" leads to a point on the valid side of the
+	  // bound
+	  modified_hessian = hessian;
+	  if (!use_additive_damping) {
+	    modified_hessian.diag_vector() *= (1.0 + damping);
+	  }
+	  else {
+	    modified_hessian.diag_vector() += damping*diag_scaling;
+	  }
+	  dx = -adept::solve(modified_hessian, gradient);
+	  // Release points at the minimum bound
+	  bound_status.where(bound_status == -1
+			     && gradient < 0.0
+			     && dx > 0.0) = 0;
+	  // Release points at the maximum bound
+	  bound_status.where(bound_status == 1
+			     && gradient > 0.0
+			     && dx < 0.0) = 0;
+	}
+	else if (nbound > 0) {
+	  // Condition (1) alone
+	  bound_status.where(bound_status == -1 && gradient < 0.0) = 0;
+	  bound_status.where(bound_status ==  1 && gradient > 0.0) = 0;
+	}
+
+	nbound = count(bound_status != 0);
+	nfree  = nx - nbound;
+
+	// List of indices of free state variables
+	ifree.resize(nfree);
+	if (nbound > 0) {
+	  ifree = find(bound_status == 0);
 	}
 	else {
-	  modified_hessian.diag_vector() += damping*diag_scaling;
+	  ifree = range(0, nx-1);
 	}
-	dx = -adept::solve(modified_hessian, gradient);
-	// Release points at the minimum bound
-	bound_status.where(bound_status == -1
-			   && gradient < 0.0
-			   && dx > 0.0) = 0;
-	// Release points at the maximum bound
-	bound_status.where(bound_status == 1
-			   && gradient > 0.0
-			   && dx < 0.0) = 0;
+
+	// Compute L2 norm of gradient to see how "flat" the environment
+	// is, restricting ourselves to the dimensions currently in play
+	if (nfree > 0) {
+	  gradient_norm_ = norm2(gradient(ifree));
+	}
+	else {
+	  // If no dimensions are in play we are at a corner of the
+	  // bounds
+	  gradient_norm_ = 0.0;
+	}
+
+	// The dimensions in play may have converged, but we are at a
+	// minimum of the cost function subject to the bounds only if
+	// the gradient in every other dimension slopes towards its
+	// bound.  If not then the cost function can still be reduced
+	// by moving away from the bound, so those dimensions are
+	// released even though condition (2) is not met.
+	if (!release_on_gradient_alone && nbound > 0
+	    && gradient_norm_ <= converged_gradient_norm_
+	    && any((bound_status == -1 && gradient < 0.0)
+		   || (bound_status == 1 && gradient > 0.0))) {
+	  release_on_gradient_alone = true;
+	}
+	else {
+	  break;
+	}
       }
 
-      nbound = count(bound_status != 0);
-      nfree  = nx - nbound;
-
-      // List of indices of free state variables
-      intVector ifree(nfree);
-      if (nbound > 0) {
-	ifree = find(bound_status == 0);
-      }
-      else {
-	ifree = range(0, nx-1);
-      }
-
-      // Compute L2 norm of gradient to see how "flat" the environment
-      // is, restricting ourselves to the dimensions currently in play
-      if (nfree > 0) {
-	gradient_norm_ = norm2(gradient(ifree));
-      }
-      else {
-	// If no dimensions are in play we are at a corner of the
-	// bounds and the gradient is pointing into the corner: we
-	// have reached a minimum in the cost function subject to the
-	// bounds so have converged
-	gradient_norm_ = 0.0;
-      }
       // Report progress using user-defined function
       optimizable.report_progress(n_iterations_, x, cost_function_, gradient_norm_);
       // Convergence has been achieved if the L2 norm has been reduced
@@ -418,7 +442,7 @@ namespace adept {
 	new_x = x;
 	new_x(ifree) += sub_dx;
 	// Rounding can carry the shortened step slightly beyond the
-	// bound it was scaled to reach...
+	// bound it was scaled to reach
 	new_x = max(min_x, min(new_x, max_x));
 	if (bound_type != 0) {
 	  // ...or leave the variable that meets its bound marginally
